@@ -186,6 +186,16 @@ func rbTLVBody(sc rbScenario, setup *ref.SetupClient, vc *ref.VerifyClient, rng 
 		}
 		return enc[:1+rng.Intn(len(enc)-1)]
 	case "overlong_item":
+		if sc.Ep == "pairings" && v%2 == 1 {
+			// a complete, well-formed request whose identifier is longer than anything that can be stored under its name
+			var t ref.TLV
+			t.AddByte(ref.TagState, 1)
+			t.AddByte(ref.TagMethod, []byte{3, 4}[(v/2)%2])
+			t.Add(ref.TagIdentifier, bytes.Repeat([]byte("A"), []int{118, 200, 600}[(v/4)%3]))
+			t.Add(ref.TagPublicKey, rnd(32))
+			t.AddByte(ref.TagPermission, 0)
+			return t.Encode()
+		}
 		switch v % 3 {
 		case 0:
 			return append(append([]byte{}, enc...), ref.TagPublicKey, 200, 1, 2, 3) // announces 200, carries 3
